@@ -59,7 +59,7 @@ Section StepsB6.
   Lemma JB_ev_other g a tr t e : classify e = HOther -> retired_ev e = [] -> JB c g a tr -> JB c g a (tr ++ Conc.tag t [e]).
   Proof.
     intros E E' J. destruct (JB_ev_other3 g a tr t e E J) as (O1 & K1 & R1). destruct J as [_ _ _ W1]. constructor; auto.
-    apply JW_ev; auto. unfold disposed_ev. now rewrite E.
+    apply JW_ev; auto; [unfold disposed_ev; now rewrite E|now rewrite E].
   Qed.
 
   (** retire( p ) is announced *)
@@ -67,11 +67,11 @@ Section StepsB6.
     mkAuxB (fn (bvs a) t (set_pend (bvs a t) (Some p))) (rbown a) (fn (wh a) p (LFly t)) (rch a) (rw a) (moved a) (dead a) (tl a).
 
   Lemma S_retire_ev g a tr t p :
-    vb_own (bvs a t) <> [] -> vb_pend (bvs a t) = None ->
+    vb_own (bvs a t) <> [] -> vb_pend (bvs a t) = None -> vb_s0 (bvs a t) = None ->
     NoDup (retired_tr (tr ++ Conc.tag t [ev_op9 p])) -> JB c g a tr -> JB c g (aux_pend a t p) (tr ++ Conc.tag t [ev_op9 p]).
   Proof.
-    intros Hown Hpn Hnd J. destruct (JB_ev_other3 g a tr t (ev_op9 p) (classify_op _) J) as (O1 & K1 & R1).
-    destruct J as [_ _ _ [W1 W2 W3 W4 W5 W6 W7]]. pose proof W5 as V5.
+    intros Hown Hpn Hs0 Hnd J. destruct (JB_ev_other3 g a tr t (ev_op9 p) (classify_op _) J) as (O1 & K1 & R1).
+    destruct J as [_ _ _ [W1 W2 W3 W4 W5 W6 W7 W8 W9]]. pose proof W5 as V5.
     assert (Ert : retired_tr (tr ++ Conc.tag t [ev_op9 p]) = retired_tr tr ++ [p]).
     { rewrite retired_tr_app. change (retired_tr (Conc.tag t [ev_op9 p])) with (retired_ev (ev_op9 p) ++ []). now rewrite retired_ev_op9. }
     assert (Eds : disposed_tr (tr ++ Conc.tag t [ev_op9 p]) = disposed_tr tr).
@@ -97,7 +97,7 @@ Section StepsB6.
       + intros t' r. cbn [aux_pend bvs moved rw]. intros Hm Hc. apply (W6 t' r).
         * revert Hm. unfold fn. destruct (Nat.eqb_spec t' t) as [->|]; cbn; auto.
         * revert Hc. unfold fn. destruct (Nat.eqb_spec t' t) as [->|]; cbn; auto.
-      + intros Hoob. destruct (W7 Hoob) as [C1 C2 C3 C4 C5 C6]. constructor; cbn [aux_pend bvs wh tl rch].
+      + intros Hoob. destruct (W7 Hoob) as [C1 C2 C3 C4 C5 C6 C7]. constructor; cbn [aux_pend bvs wh tl rch].
         * intros q Hq. destruct (Nat.eq_dec q p) as [->|N]; [rewrite fn_same; discriminate|]. rewrite fn_other by exact N. apply C1.
           rewrite Ert in Hq. apply in_app_or in Hq. destruct Hq as [Hq|[Hq|[]]]; [exact Hq|congruence].
         * intros q r. destruct (Nat.eq_dec q p) as [->|N]; [rewrite fn_same; discriminate|]. rewrite fn_other by exact N.
@@ -110,6 +110,22 @@ Section StepsB6.
         * intros r Hr. destruct (C5 r Hr) as [X|(t' & nx & X)]; [now left|right; exists t', nx].
           unfold fn. destruct (Nat.eqb_spec t' t) as [->|]; cbn; auto.
         * intros t' r nx H. apply (C6 t' r nx). revert H. unfold fn. destruct (Nat.eqb_spec t' t) as [->|]; cbn; auto.
+        * intros t' r H. assert (H' : vb_arr (bvs a t') = Some r) by (revert H; unfold fn; destruct (Nat.eqb_spec t' t) as [->|]; cbn; auto).
+          destruct (C7 t' r H') as (X1 & X2). split; [unfold fn; destruct (Nat.eqb_spec t' t) as [->|]; cbn; auto|exact X2].
+      + exact W8.
+      + destruct W9 as [H1 H2 H3]. change (Conc.tag t [ev_op9 p]) with [(t, ev_op9 p)].
+        assert (Ecl : classify (ev_op9 p) = HOther) by apply classify_op.
+        constructor; cbn [aux_pend bvs wh].
+        * intros t' r E. assert (E' : vb_mine (bvs a t') = Some r) by (revert E; unfold fn; destruct (Nat.eqb_spec t' t) as [->|]; cbn; auto).
+          destruct (H1 t' r E') as (X1 & X2 & X3). split; [unfold fn; destruct (Nat.eqb_spec t' t) as [->|]; cbn; auto|].
+          destruct (Nat.eq_dec t' t) as [->|Nt].
+          -- rewrite DhpConsSTrace.latt_snoc, DhpConsSTrace.mine_snoc, Ecl, retired_ev_op9. split; auto. intros q [<-|Hq]; [rewrite fn_same; auto|].
+             destruct (Nat.eq_dec q p) as [->|Nq]; [rewrite fn_same; auto|rewrite fn_other by exact Nq; auto].
+          -- rewrite DhpConsSTrace.latt_snoc_other, DhpConsSTrace.mine_snoc_other by auto. split; auto. intros q Hq.
+             assert (Nq : q <> p) by (intros ->; destruct (X3 p Hq) as [Y|[Y|Y]]; congruence). rewrite fn_other by exact Nq. auto.
+        * intros t' r. destruct (Nat.eq_dec t' t) as [->|Nt]; [rewrite DhpConsSTrace.lsb_snoc, Ecl; discriminate|].
+          rewrite DhpConsSTrace.lsb_snoc_other, fn_other by auto. apply H2.
+        * intros t' r. destruct (Nat.eq_dec t' t) as [->|Nt]; [rewrite fn_same; cbn; rewrite Hs0; discriminate|]. rewrite fn_other by auto. apply H3.
   Qed.
 
   (** ** a record without retired array: its cursor may be reset freely *)
@@ -138,7 +154,7 @@ Section StepsB6.
           apply Rinv_frame with (g := g); auto; try lia. rewrite Eo by exact N. auto.
       + intros t' b i n Hc'. destruct (R4 t' b i n Hc') as (r0 & ob & j & Y0 & Y). exists r0, ob, j. split; auto.
         rewrite Eo; auto. eapply Hexcl; eauto.
-    - apply JW_frame with (g := g) (a := a) (rt := retired_tr tr); auto.
+    - apply JW_frame with (g := g) (a := a) (rt := retired_tr tr) (tr := tr); auto.
   Qed.
 
   (** ** push( p ) of the announced pointer *)
@@ -149,34 +165,15 @@ Section StepsB6.
 
   Lemma S_push g a tr t r p :
     In r (vb_own (bvs a t)) -> vb_pend (bvs a t) = Some p -> vb_dead (bvs a t) <> Some r ->
-    (forall ob, vb_move (bvs a t) <> Some (r, ob)) -> vb_full (bvs a t) = None ->
+    (forall ob, vb_move (bvs a t) <> Some (r, ob)) -> vb_full (bvs a t) = None -> vb_arr (bvs a t) = Some r ->
+    (forall r', vb_mine (bvs a t) = Some r' -> r' = r) ->
     JB c g a tr -> JB c (fst (rt_push c r p g)) (aux_push a t r p (snd (rt_push c r p g))) tr.
   Proof.
-    intros Hr Hp Hd Hnm Hfu J. unfold aux_push.
+    intros Hr Hp Hd Hnm Hfu Har Hmi J. unfold aux_push.
     assert (Hcase : rch a r = [] \/ rch a r <> []) by (destruct (rch a r); [left|right]; congruence).
     destruct Hcase as [Ech|Hne].
-    - (* no array: the pointer is dropped *)
-      rewrite Ech.
-      destruct (JB_rec1 c g a tr t r J Hr Hd Ech) as (Hh & Hc & _ & _).
-      unfold rt_push. rewrite Hc. cbn [fst snd].
-      destruct J as [O1 K1 R1 [W1 W2 W3 W4 W5 W6 W7]]. constructor.
-      + eapply JO_frame with (g := g) (a := a); eauto. vwt t.
-      + eapply JK_frame with (g := g) (a := a); eauto. vwt t.
-      + eapply JR_frame with (g := g) (a := a); eauto.
-        all: try solve [intros r'; cbn; unfold fn; destruct (Nat.eqb_spec r' r) as [->|]; auto].
-        all: try solve [intros t'; cbn; unfold fn; destruct (Nat.eqb_spec t' t) as [->|]; cbn; auto; rewrite Hfu; auto].
-        all: try solve [vwt t].
-      + constructor; cbn [aux_arr bvs wh]; auto.
-        * intros r' Hr'. assert (E : ec (set_oob g true) (aux_arr a t r (set_full (set_pend (bvs a t) None) None) (wh a) (rw a r)) r' = ec g a r').
-          { apply ec_ext; cbn [aux_arr rch rw moved]; auto. unfold fn. destruct (Nat.eqb_spec r' r) as [->|]; auto. }
-          rewrite E. apply W1. exact Hr'.
-        * intros t' q. unfold fn. destruct (Nat.eqb_spec t' t) as [->|]; cbn; [discriminate|apply W2].
-        * intros t'. unfold fn. destruct (Nat.eqb_spec t' t) as [->|]; cbn; apply W3.
-        * intros t' r'. cbn [aux_arr bvs moved rw]. intros Hm Hc'.
-          assert (E : fn (rw a) r (rw a r) r' = rw a r') by (unfold fn; destruct (Nat.eqb_spec r' r) as [->|]; auto). rewrite E. apply (W6 t' r').
-          -- revert Hm. unfold fn. destruct (Nat.eqb_spec t' t) as [->|]; cbn; auto.
-          -- revert Hc'. unfold fn. destruct (Nat.eqb_spec t' t) as [->|]; cbn; auto.
-        * cbn. discriminate.
+    - (* no array: excluded by the thread-local knowledge vb_arr = Some r *)
+      exfalso. destruct J as [_ _ _ [_ _ _ _ _ _ W7 W8]]. destruct (W7 W8) as [_ _ _ _ _ _ C7]. destruct (C7 t r Har) as (_ & X). contradiction.
     - (* the array takes the pointer *)
       assert (Ewh : (match rch a r with [] => wh a | _ => fn (wh a) p (LRec r) end) = fn (wh a) p (LRec r)) by (destruct (rch a r); congruence).
       assert (Ew : (match rch a r with [] => rw a r | _ => S (rw a r) end) = S (rw a r)) by (destruct (rch a r); congruence).
@@ -192,7 +189,7 @@ Section StepsB6.
       assert (Hfu' : forall r0, vb_full v' = Some r0 -> r0 = r) by (unfold v'; destruct ok; cbn; congruence).
       destruct (arr_op c HRB1 g g' a tr t r v' (fn (wh a) p (LRec r)) (S (rw a r)) J Hr Hne Hmv Hnm (or_introl Hfu) F I' Hw' Hfu'
                   eq_refl eq_refl eq_refl eq_refl eq_refl eq_refl eq_refl eq_refl) as (JO' & JK' & JR' & Eec).
-      destruct J as [O1 K1 R1 [W1 W2 W3 W4 W5 W6 W7]]. destruct (W2 t p Hp) as (Hwp & Hnfr).
+      destruct J as [O1 K1 R1 [W1 W2 W3 W4 W5 W6 W7 W8 W9]]. destruct (W2 t p Hp) as (Hwp & Hnfr).
       constructor; auto.
       assert (El : List.length (recs g') = List.length (recs g)) by (destruct F as (X & _); exact X).
       assert (Elen : List.length (flat g (rch a r)) = List.length (rch a r) * RB) by (destruct I as [_ Ich _ _ _ _ _]; eapply flat_length; eauto).
@@ -221,7 +218,7 @@ Section StepsB6.
         { intros ->. pose proof R1 as [_ _ R3 _ _ _]. destruct (R3 t' r None Hm') as (Z & _).
           assert (t = t') by (eapply (JO_excl g a t t' r); eauto). subst t'. eapply Hnm; eauto. }
         rewrite fn_other by exact N. apply (W6 t' r'); auto.
-      + rewrite Eoob. intros Hoob. destruct (W7 Hoob) as [C1 C2 C3 C4 C5 C6]. constructor; cbn [aux_arr bvs wh tl rch].
+      + rewrite Eoob. intros Hoob. destruct (W7 Hoob) as [C1 C2 C3 C4 C5 C6 C7]. constructor; cbn [aux_arr bvs wh tl rch].
         * intros q Hq. destruct (Nat.eq_dec q p) as [->|N]; [rewrite fn_same; discriminate|]. rewrite fn_other by exact N. now apply C1.
         * intros q r'. rewrite El. destruct (Nat.eq_dec q p) as [->|N].
           -- rewrite fn_same. intros E. inversion E; subst r'. split; [destruct O1 as [_ _ _ _ O5]; apply (O5 t r Hr)|]. rewrite Ecr. apply in_or_app. right. now left.
@@ -234,5 +231,15 @@ Section StepsB6.
         * intros r' Hr'. rewrite El in Hr'. destruct (C5 r' Hr') as [X|(t' & nx & X)]; [now left|right; exists t', nx].
           unfold fn. destruct (Nat.eqb_spec t' t) as [->|]; cbn; auto.
         * intros t' r' nx H. apply (C6 t' r' nx). revert H. unfold fn. destruct (Nat.eqb_spec t' t) as [->|]; cbn; auto.
+        * intros t' r' H. assert (H' : vb_arr (bvs a t') = Some r') by (revert H; unfold fn; destruct (Nat.eqb_spec t' t) as [->|]; cbn; auto).
+          destruct (C7 t' r' H') as (X1 & X2). split; [unfold fn; destruct (Nat.eqb_spec t' t) as [->|]; cbn; auto|exact X2].
+      + rewrite Eoob. exact W8.
+      + destruct W9 as [H1 H2 H3]. constructor; cbn [aux_arr bvs wh].
+        * intros t' r' E. assert (E' : vb_mine (bvs a t') = Some r') by (revert E; unfold fn, v'; destruct (Nat.eqb_spec t' t) as [->|]; cbn; auto).
+          destruct (H1 t' r' E') as (X1 & X2 & X3). split; [unfold fn, v'; destruct (Nat.eqb_spec t' t) as [->|]; cbn; auto|]. split; auto.
+          intros q Hq. destruct (Nat.eq_dec q p) as [->|Nq]; [|rewrite fn_other by exact Nq; auto].
+          rewrite fn_same. destruct (X3 p Hq) as [Y|[Y|Y]]; try congruence. rewrite Hwp in Y. inversion Y; subst t'. left. f_equal. symmetry. apply Hmi. exact E'.
+        * intros t' r' E. specialize (H2 t' r' E). revert H2. unfold fn, v'. destruct (Nat.eqb_spec t' t) as [->|]; cbn; auto.
+        * intros t' r'. unfold fn, v'. destruct (Nat.eqb_spec t' t) as [->|]; cbn; [|apply H3]. intros E. destruct (H3 t r' E) as (Y1 & Y2 & Y3). auto.
   Qed.
 End StepsB6.
